@@ -210,6 +210,46 @@ def check(chk):
                     ok = ok and k is True and src(n.ast.value) == 'self._child_policy.distance(host)'
     chk.judge(ok, 'C21.filter', hd, 'HostFilterPolicy.distance: IGNORED iff not predicate, else the child\'s distance', 'filter distance inconsistent with its plan')
 
+    # ---- Default policy: the optional target host of a statement goes first, everything else is the child's plan
+    chk.rule('C21.default', 'DefaultLoadBalancingPolicy: the target host is looked up only for a statement that names one, goes first only when it is up, and the rest is the child plan without it')
+    dp = pol.func('DefaultLoadBalancingPolicy.make_query_plan')
+    gd_, fld_ = _sem_mod.flow_of(dp)
+    lookups = [c for c in body_walk(dp) if isinstance(c, ast.Call) and isinstance(c.func, ast.Attribute) and c.func.attr == 'get_host']
+    if len(lookups) != 1 or len(lookups[0].args) != 1:
+        raise AnalysisError('DefaultLoadBalancingPolicy.make_query_plan: target host lookup not recognised')
+    arg = src(lookups[0].args[0])
+    from ..core import parent as _par
+    guarded = False
+    p_ = _par(lookups[0])
+    while p_ is not None and not isinstance(p_, ast.stmt):
+        if isinstance(p_, ast.IfExp) and src(p_.test) == arg and any(x is lookups[0] for x in ast.walk(p_.body)):
+            guarded = True
+        if isinstance(p_, ast.BoolOp) and isinstance(p_.op, ast.And) and src(p_.values[0]) == arg:
+            guarded = True
+        p_ = _par(p_)
+    if not guarded:
+        nd_ = _sem_mod.node_of(gd_, lookups[0])
+        guarded = nd_ is not None and _sem_mod.knows_all(fld_, nd_, arg) is True
+    chk.judge(guarded, 'C21.default', lookups[0], 'metadata.get_host(%s) only when %s is set' % (arg, arg),
+              'get_host(None) is evaluated for a statement without target host: the address scan matches the first host whose broadcast_rpc_address is still None (known, not yet refreshed) '
+              'and, if it is up, the plan starts with it even when the child policy ignores it or it is beyond the remote quota')
+    ys = [n for n in gd_.stmt_nodes() if n.kind == 'stmt' and isinstance(n.ast, ast.Expr) and isinstance(n.ast.value, ast.Yield)]
+    first = [n for n in ys if src(n.ast.value.value) == 'target_host']
+    okf = len(first) == 1 and all(fa.knows('target_host') is True and fa.knows('target_host.is_up') is True for fa, _c in fld_.at(first[0]))
+    chk.judge(okf, 'C21.default', dp, 'the target host is yielded (once) only when it was found and is up', 'the target host is yielded although it is unknown or not up')
+    rest = [n for n in ys if n not in first]
+    okr = len(rest) == 2
+    for n in rest:
+        fas = list(fld_.at(n))
+        with_target = all(fa.knows('target_host') is True and fa.knows('target_host.is_up') is True for fa, _c in fas)
+        if with_target:
+            okr = okr and all(fa.knows('h != target_host') is True or fa.knows('h == target_host') is False for fa, _c in fas)
+        else:
+            okr = okr and not any(fa.knows('h != target_host') is not None for fa, _c in fas)
+        okr = okr and src(n.ast.value.value) == 'h'
+    loops_d = [n for n in body_walk(dp) if isinstance(n, ast.For)]
+    okr = okr and len(loops_d) == 2 and all(src(l.iter) in ('child.make_query_plan(keyspace, query)', 'self._child_policy.make_query_plan(keyspace, query)') for l in loops_d)
+    chk.judge(okr, 'C21.default', dp, 'with a target: the child plan minus the target; without: the child plan as it is', 'the remainder of the plan is no longer the child plan (minus the target host)')
     # _dc(host) depends on self.local_dc: when local_dc is inferred later, the hosts filed under the old (unset) value move with it
     chk.rule('C21.infer', 'DC-aware: an assignment to self.local_dc outside __init__ is preceded, under _hosts_lock, by moving the bucket filed under the old value to the new key')
     n_inf = 0
